@@ -440,10 +440,10 @@ func (in *instr) exprs(n ast.Node) ast.Node {
 					return false
 				}
 			}
-			if x.Sel.Name == "Dial" {
+			if x.Sel.Name == "Dial" || x.Sel.Name == "DialContext" {
 				if _, ptr, ok := namedIn(in.typeOf(x.X), "net", "Dialer"); ok {
 					recv := in.exprs(x.X).(ast.Expr)
-					c.Replace(hook("DialerDial", addr(recv, ptr)))
+					c.Replace(hook("Dialer"+x.Sel.Name, addr(recv, ptr)))
 					in.used = true
 					return false
 				}
